@@ -1,5 +1,6 @@
 // Input generators (sorted key arrays, query sets) shared by the engines.
 #pragma once
+#include <cmath>
 
 #include "vf.hpp"
 
@@ -478,6 +479,28 @@ std::vector<K> gen_irregular_keys(Rng &r, size_t n) {
         x = D::to_key(std::min(cur, D::R));
         cur = sat_add(cur, 1 + (r.next() & ((uint64_t(1) << r.below(uint64_t(emax) + 1)) - 1)), D::R);
     }
+    return out;
+}
+
+/// n 64-bit keys on a barely curved line, key_i = base + 2^58 * (i/n)^a with a within 2% of 1, optionally after a prefix of
+/// irregular keys and a wide gap. The rank-vs-key curve is strictly convex (a < 1) or concave (a > 1) but so flat that, for
+/// eps >= 64, ONE segment absorbs 10^5 keys or more while nearly every key stays a vertex of the convex hulls the builder
+/// maintains: the hulls grow past any fixed reservation (2^16 vertices in the library) - the regime in which hull storage
+/// management, as opposed to hull geometry, is exercised. With the prefix the long segment is not the first of the array.
+template<class K>
+std::vector<K> gen_gentle_curve(Rng &r, size_t n, size_t prefix) {
+    using D = UDom<K>;
+    static_assert(sizeof(K) == 8, "64-bit keys only");
+    std::vector<uint64_t> u;
+    uint64_t cur = r.below(1000);
+    for (size_t i = 0; i < prefix; ++i) { u.push_back(cur); cur += 1 + r.below(1000); }
+    uint64_t base = prefix ? cur + (uint64_t(1) << 40) : r.below(1000);
+    const long double a = r.pick<long double>({0.98L, 0.99L, 0.995L, 1.002L, 1.005L, 1.01L, 1.02L});
+    const long double A = (long double) (uint64_t(1) << r.pick<int>({50, 54, 58}));
+    for (size_t i = 0; i < n; ++i) u.push_back(std::min<uint64_t>(D::R, base + uint64_t(powl((long double) (i + 1) / n, a) * A)));
+    std::sort(u.begin(), u.end());
+    std::vector<K> out;
+    for (auto v : u) out.push_back(D::to_key(v));
     return out;
 }
 
